@@ -58,7 +58,7 @@ ExtractDef(names, rows, values, source, mv) ==
 
 \* ---------- bounded universe ----------
 a == 97  b == 98  UA == 65  x == 120  one == 49
-HdrNames == { <<a>>, <<UA>>, <<b>>, <<a>> \o Suffix(2), <<a>> \o Suffix(1) }
+HdrNames == { <<a>>, <<UA>>, <<b>>, <<a>> \o Suffix(2), <<a>> \o Suffix(1), <<a, 37>>, <<37, 115>> }      \* "a%" and "%s": header text is text, not a template
 CellTexts == { <<>>, <<x>>, <<Space, x, Space>>, <<one>>, <<x, Comma, x>>, <<x, Quote, x>>, <<x, LF, x>>, <<x, Space, x>> }
 VARIABLES tbl, opts
 HeaderCase == /\ \E n \in 1..3 : \E h \in [1..n -> HdrNames] : tbl = <<h, [j \in 1..n |-> <<one + j>>]>>
